@@ -48,8 +48,8 @@ type c16KBState struct {
 	active map[string]string // rule name -> text id
 	dirty  bool              // a build was rejected here
 	exists bool
-	stored int // checkpoint (store without load): 0 none, 1 taken and nothing changed since, 2 taken and the knowledge base changed afterwards
-	inst   int // an instance was created and executed in the middle of the history: 0 never, 1 and nothing changed since, 2 and the knowledge base changed afterwards
+	stored int               // checkpoint (store without load): 0 none, 1 taken and nothing changed since, 2 taken and the knowledge base changed afterwards
+	inst   int               // an instance was created and executed in the middle of the history: 0 never, 1 and nothing changed since, 2 and the knowledge base changed afterwards
 	ckpt   map[string]string // rules in the last checkpoint stream (nil: none taken)
 }
 
